@@ -148,6 +148,9 @@ def oracle(case, res):
         return [("C02/exception", f"threshold_at_{case['metric']} raised {res.get('err')}: {res.get('msg')}")]
     r = res["ok"]
     fails = []
+    if r.get("result_overwritten"):
+        fails.append(("C02/result-overwritten", f"the array returned by threshold_at_{case['metric']} changed when other threshold functions "
+                                                "were called afterwards with targets of the same shape"))
     lo, hi, one = tc.achievable(case)
     tau = F(r["tau"])
     eps = Fraction(1, 10 ** 12)
